@@ -26,6 +26,7 @@ func init() {
 			ruleStepBuffers(r)
 			ruleKeyedStores(r)
 			ruleIndexLoopDeletion(r, []string{metricPkg, enginePkg})
+			ruleBinOpPairsMatched(r)
 		},
 	})
 }
